@@ -36,7 +36,7 @@ def base(h, site1, site2):
 
 
 FAILING = {}
-MAY_SUCCEED = {'add_facility.two_interfaces_with_caller_supplied_id'}     # accepted since the repair of the id numbering
+MAY_SUCCEED = {'add_facility.two_interfaces_with_caller_supplied_id', 'add_component.derived_service_name_of_another_card'}     # accepted since the repair of the id numbering
 
 
 def failing(name):
@@ -154,6 +154,59 @@ def _(h, t, n1, n2, c1, c2, site):
     return h.attempt(h.getattr(t, 'add_switch'), name='sw', site=site, nports=2, portlabels='p')
 
 
+@failing('add_network_service.node_id_of_an_existing_service')
+def _(h, t, n1, n2, c1, c2, site):
+    i1 = topo.iface(h, c1, 'nic1-p1')
+    i2 = topo.iface(h, c2, 'nic2-p1')
+    first = h.call(h.getattr(t, 'add_network_service'), name='br0', nstype=ServiceType.L2Bridge, interfaces=L(h, [i1]), node_id='svc-id')
+    return ('pre', lambda: h.attempt(h.getattr(t, 'add_network_service'), name='br1', nstype=ServiceType.L2Bridge,
+                                     interfaces=L(h, [i2]), node_id='svc-id'))
+
+
+@failing('add_component.derived_service_name_of_another_card')
+def _(h, t, n1, n2, c1, c2, site):
+    # node "rack-a" + card "nic1" and node "rack" + card "a-nic1" derive the same name for the card's own service
+    ra = h.call(h.getattr(t, 'add_node'), name='rack-a', site=site)
+    h.call(h.getattr(ra, 'add_component'), name='nic1', model_type=CMT('SharedNIC_ConnectX_6'))
+    rb = h.call(h.getattr(t, 'add_node'), name='rack', site=site)
+    return ('pre', lambda: h.attempt(h.getattr(rb, 'add_component'), name='a-nic1', model_type=CMT('SharedNIC_ConnectX_6')))
+
+
+@failing('connect_interface.through_the_handle_of_a_removed_service')
+def _(h, t, n1, n2, c1, c2, site):
+    i1 = topo.iface(h, c1, 'nic1-p1')
+    ns = h.call(h.getattr(t, 'add_network_service'), name='br0', nstype=ServiceType.L2Bridge, interfaces=L(h, []))
+    h.call(h.getattr(t, 'remove_network_service'), 'br0')
+    return ('pre', lambda: h.attempt(h.getattr(ns, 'connect_interface'), i1))
+
+
+@failing('add_network_service.parent_that_does_not_exist')
+def _(h, t, n1, n2, c1, c2, site):
+    return h.attempt(h.getattr(t, 'add_network_service'), name='br0', nstype=ServiceType.L2Bridge, interfaces=L(h, []),
+                     parent_node_id='no-such-node')
+
+
+@failing('connect_interface.derived_link_name_too_long')
+def _(h, t, n1, n2, c1, c2, site):
+    # "<node>-<interface>" fits a port name (255), "<node>-<interface>-link" does not
+    big = h.call(h.getattr(t, 'add_node'), name='n' * 200, site=site)
+    card = h.call(h.getattr(big, 'add_component'), name='c' * 48, model_type=CMT('SharedNIC_ConnectX_6'))
+    i = topo.pylist(h.getattr(card, 'interface_list'))[0]
+    ns = h.call(h.getattr(t, 'add_network_service'), name='br0', nstype=ServiceType.L2Bridge, interfaces=L(h, []))
+    return ('pre', lambda: h.attempt(h.getattr(ns, 'connect_interface'), i))
+
+
+@failing('substrate_add_component.nested_interface_id_in_use')
+def _(h, t, n1, n2, c1, c2, site):
+    from fim.slivers.network_node import NodeType
+    st = h.call(SubstrateTopology)
+    w = h.call(h.getattr(st, 'add_node'), name='w1', node_id='w1', site=site, ntype=NodeType.Server)
+    labels = [h.call(Labels, bdf='0000:41:00.0', mac='00:00:00:00:00:01'), h.call(Labels, bdf='0000:41:00.1', mac='00:00:00:00:00:02')]
+    return ('pre', lambda: h.attempt(h.getattr(w, 'add_component'), name='nic1', node_id='nic1', model_type=CMT('SmartNIC_ConnectX_6'),
+                                     network_service_node_id='nic1-sf', interface_node_ids=L(h, ['p1', 'w1']),
+                                     interface_labels=L(h, labels)), st)
+
+
 def make(name, run):
     class Op(Contract):
         target = 'fim.user.topology:Topology.add_node'
@@ -170,6 +223,8 @@ def make(name, run):
             t, n1, n2, c1, c2 = base(h, site1, site2)
             r = run(h, t, n1, n2, c1, c2, site1)
             if isinstance(r, tuple) and r[0] == 'pre':
+                if len(r) == 3:
+                    t = r[2]           # the scenario built its own topology (e.g. a substrate model)
                 S0 = take(h, t)
                 st, val = r[1]()
             else:
